@@ -8,6 +8,7 @@ from credit card and bank statements.
 import csv
 import os
 import re
+import sys
 from datetime import date
 from typing import Optional, List, Tuple, Dict, TYPE_CHECKING
 
@@ -183,8 +184,9 @@ def get_all_rules(rules_path=None, match_mode='first_match'):
                         list(rule.tags)
                     ))
                 return user_rules_with_source
-            except Exception:
-                pass  # Fall through to CSV handling if .rules parsing fails
+            except Exception as e:
+                # Report the failure; fall through to CSV handling (which finds no rules)
+                print(f"Error: could not load rules file {rules_path}: {e}", file=sys.stderr)
 
         # CSV format (legacy)
         user_rules = load_merchant_rules(rules_path)
@@ -226,7 +228,8 @@ def get_tag_only_rules(rules_path, match_mode='first_match'):
         from pathlib import Path
         engine = load_merchants_file(Path(rules_path), match_mode=match_mode)
         return engine.tag_only_rules
-    except Exception:
+    except Exception as e:
+        print(f"Error: could not load rules file {rules_path}: {e}", file=sys.stderr)
         return []
 
 
@@ -294,7 +297,8 @@ def get_transforms(rules_path, match_mode='first_match'):
         from pathlib import Path
         engine = load_merchants_file(Path(rules_path), match_mode=match_mode)
         return engine.transforms
-    except Exception:
+    except Exception as e:
+        print(f"Error: could not load rules file {rules_path}: {e}", file=sys.stderr)
         return []
 
 
